@@ -63,7 +63,9 @@ func graphText(g *resolve.Graph, err error) string {
 	}
 	var b strings.Builder
 	if g.Error != "" {
-		b.WriteString("GRAPH-ERROR\n")
+		// the graph-wide error is a field of the graph: its text belongs to the answer (all comparisons are
+		// between answers of this one binary)
+		fmt.Fprintf(&b, "GRAPH-ERROR %q\n", g.Error)
 	}
 	for i, n := range g.Nodes {
 		fmt.Fprintf(&b, "n%d %s %s", i, n.Version.Name, n.Version.Version)
